@@ -65,6 +65,7 @@ structure StOk (st : State) : Prop where
   proper : ∀ m ∈ st.rows, Proper m.pks
   rowids : st.rows.Pairwise (fun a b => a.rowid ≠ b.rowid)
   bound : ∀ m ∈ st.rows, m.rowid < st.nextRowid
+  last : st.lastRowid < st.nextRowid
 
 def State.outs (st : State) : List Out := st.rows.map MRow.out
 
@@ -142,5 +143,474 @@ theorem Ext.trans {a b c : State} {x y : List Event} (h1 : Ext a b x) (h2 : Ext 
 theorem ext_emit (st : State) (k : Kind) (r : Nat) (cs : List Val) :
     Ext st (emit st k r cs) [⟨k, r, cs, st.nextId⟩] := by
   simp [Ext, emit, Consec]
+
+/-! ### the client's view, as a set -/
+
+def SameSet (a b : View) : Prop := ∀ x, x ∈ a ↔ x ∈ b
+
+theorem SameSet.rfl' (a : View) : SameSet a a := fun _ => Iff.rfl
+
+theorem applyEvent_congr {a b : View} (h : SameSet a b) (e : Event) :
+    SameSet (applyEvent a e) (applyEvent b e) := by
+  intro x
+  unfold applyEvent
+  cases e.kind <;> simp only [List.mem_append, List.mem_filter, List.mem_map, List.mem_singleton]
+  · rw [h x]
+  · constructor <;> rintro ⟨y, hy, rfl⟩
+    · exact ⟨y, (h y).mp hy, rfl⟩
+    · exact ⟨y, (h y).mpr hy, rfl⟩
+  · rw [h x]
+
+theorem replay_congr : ∀ (es : List Event) {a b : View}, SameSet a b → SameSet (replay a es) (replay b es) := by
+  intro es
+  induction es with
+  | nil => intro a b h; exact h
+  | cons e es ih => intro a b h; exact ih (applyEvent_congr h e)
+
+theorem replay_append (v : View) (a b : List Event) : replay v (a ++ b) = replay (replay v a) b := by
+  simp [replay, List.foldl_append]
+
+/-- `st'` is `st` after a piece of `handle_candidates` that emitted `ex`: ids consecutive, the
+client's view follows -/
+structure Trans (st st' : State) (ex : List Event) : Prop where
+  ext : Ext st st' ex
+  view : SameSet (replay st.view ex) st'.view
+  rowids : ∀ e ∈ ex, e.rowid < st'.nextRowid
+  mono : st.nextRowid ≤ st'.nextRowid
+
+theorem Trans.refl (st : State) : Trans st st [] :=
+  ⟨Ext.refl st, fun _ => Iff.rfl, by simp, Nat.le_refl _⟩
+
+theorem Trans.trans {a b c : State} {x y : List Event} (h1 : Trans a b x) (h2 : Trans b c y) :
+    Trans a c (x ++ y) := by
+  refine ⟨h1.ext.trans h2.ext, ?_, ?_, Nat.le_trans h1.mono h2.mono⟩
+  · rw [replay_append]
+    intro v
+    rw [replay_congr y h1.view v]
+    exact h2.view v
+  · intro e he
+    rcases List.mem_append.mp he with h | h
+    · exact Nat.lt_of_lt_of_le (h1.rowids e h) h2.mono
+    · exact h2.rowids e h
+
+theorem mem_view {st : State} {v : Nat × List Val} : v ∈ st.view ↔ ∃ m ∈ st.rows, (m.rowid, m.cells) = v := by
+  simp [State.view]
+
+/-! ### one upsert -/
+
+def setCells (o : Out) (x : MRow) : MRow :=
+  if ckey x.pks = ckey o.pks then { x with cells := o.cells } else x
+
+theorem upsertOne_eq (st : State) (o : Out) : upsertOne st o =
+    match st.rows.find? (fun m => ckey m.pks = ckey o.pks) with
+    | some m =>
+      if m.cells = o.cells then st
+      else emit { st with rows := st.rows.map (setCells o) }
+        (if m.rowid > st.lastRowid then .insert else .update) m.rowid o.cells
+    | none =>
+      emit { st with rows := st.rows ++ [⟨st.nextRowid, o.pks, o.cells⟩], nextRowid := st.nextRowid + 1 }
+        (if st.nextRowid > st.lastRowid then .insert else .update) st.nextRowid o.cells := rfl
+
+theorem upsertOne_spec {st : State} (h : StOk st) {o : Out} (ho : Proper o.pks) :
+    StOk (upsertOne st o) ∧
+    (∀ x, x ∈ (upsertOne st o).outs ↔ x = o ∨ (x ∈ st.outs ∧ x.pks ≠ o.pks)) ∧
+    ∃ ex, Trans st (upsertOne st o) ex ∧ (o ∈ st.outs → ex = []) := by
+  rw [upsertOne_eq]
+  split
+  · rename_i m hf
+    obtain ⟨hm, hpk⟩ := find_key_some h ho hf
+    have hkey : ∀ y ∈ st.rows, (ckey y.pks = ckey o.pks ↔ y = m) := by
+      intro y hy
+      constructor
+      · intro hc
+        exact h.uniq hy hm ((ckey_inj (h.proper y hy) ho hc).trans hpk.symm)
+      · intro e; subst e; rw [hpk]
+    split
+    · rename_i hc
+      have hmo : m.out = o := by cases o; simp_all [MRow.out]
+      refine ⟨h, ?_, [], Trans.refl st, fun _ => rfl⟩
+      intro x
+      constructor
+      · intro hx
+        by_cases hp : x.pks = o.pks
+        · left
+          obtain ⟨y, hy, rfl⟩ := mem_outs.mp hx
+          have : y = m := h.uniq hy hm (by simpa [MRow.out] using hp.trans hpk.symm)
+          rw [this, hmo]
+        · exact Or.inr ⟨hx, hp⟩
+      · rintro (rfl | ⟨hx, _⟩)
+        · exact mem_outs.mpr ⟨m, hm, hmo⟩
+        · exact hx
+    · rename_i hc
+      -- cells replaced
+      have hfp : ∀ y, (setCells o y).pks = y.pks := by intro y; unfold setCells; split <;> rfl
+      have hfr : ∀ y, (setCells o y).rowid = y.rowid := by intro y; unfold setCells; split <;> rfl
+      have hfm : setCells o m = { m with cells := o.cells } := by simp [setCells, hpk]
+      have hfo : ∀ y ∈ st.rows, y ≠ m → setCells o y = y := by
+        intro y hy hne
+        unfold setCells
+        rw [if_neg (fun hc' => hne ((hkey y hy).mp hc'))]
+      have hno : o ∉ st.outs := by
+        intro hin
+        obtain ⟨y, hy, hyo⟩ := mem_outs.mp hin
+        have : y = m := h.uniq hy hm (by rw [hpk, ← hyo]; rfl)
+        subst this
+        apply hc; rw [← hyo]; rfl
+      refine ⟨?_, ?_, ?_⟩
+      · refine ⟨?_, ?_, ?_, ?_, ?_⟩
+        · simp only [emit]
+          rw [List.pairwise_map]
+          exact h.keys.imp (fun {a b} hab => by rw [hfp, hfp]; exact hab)
+        · intro y hy
+          simp only [emit, List.mem_map] at hy
+          obtain ⟨z, hz, rfl⟩ := hy
+          rw [hfp]; exact h.proper z hz
+        · simp only [emit]
+          rw [List.pairwise_map]
+          exact h.rowids.imp (fun {a b} hab => by rw [hfr, hfr]; exact hab)
+        · intro y hy
+          simp only [emit, List.mem_map] at hy
+          obtain ⟨z, hz, rfl⟩ := hy
+          rw [hfr]; exact h.bound z hz
+        · simp only [emit]; exact h.last
+      · intro x
+        simp only [State.outs, emit, List.map_map, List.mem_map, Function.comp]
+        constructor
+        · rintro ⟨y, hy, rfl⟩
+          by_cases hym : y = m
+          · subst hym; left; rw [hfm]; cases o; simp_all [MRow.out]
+          · right
+            rw [hfo y hy hym]
+            exact ⟨⟨y, hy, rfl⟩, fun hp => hym (h.uniq hy hm (by simpa [MRow.out] using hp.trans hpk.symm))⟩
+        · rintro (rfl | ⟨⟨y, hy, rfl⟩, hp⟩)
+          · exact ⟨m, hm, by rw [hfm]; simp [MRow.out, hpk]⟩
+          · have hym : y ≠ m := fun e => hp (by subst e; simpa [MRow.out] using hpk)
+            exact ⟨y, hy, by rw [hfo y hy hym]⟩
+      · refine ⟨_, ⟨ext_emit _ _ _ _, ?_, ?_, by simp [emit]⟩, fun hin => absurd hin hno⟩
+        · -- the client's view
+          intro v
+          simp only [replay, List.foldl_cons, List.foldl_nil, applyEvent]
+          have hv' : ∀ v, v ∈ State.view (emit { st with rows := st.rows.map (setCells o) } (if m.rowid > st.lastRowid then Kind.insert else Kind.update) m.rowid o.cells) ↔
+              (v = (m.rowid, o.cells)) ∨ (v ∈ st.view ∧ v.1 ≠ m.rowid) := by
+            intro v
+            simp only [State.view, emit, List.map_map, List.mem_map, Function.comp]
+            constructor
+            · rintro ⟨y, hy, rfl⟩
+              by_cases hym : y = m
+              · subst hym; left; rw [hfm]
+              · right
+                rw [hfo y hy hym]
+                exact ⟨⟨y, hy, rfl⟩, fun hr => hym (h.uniqRowid hy hm hr)⟩
+            · rintro (rfl | ⟨⟨y, hy, rfl⟩, hr⟩)
+              · exact ⟨m, hm, by rw [hfm]⟩
+              · have hym : y ≠ m := fun e => hr (by subst e; rfl)
+                exact ⟨y, hy, by rw [hfo y hy hym]⟩
+          rw [hv' v]
+          by_cases hgt : m.rowid > st.lastRowid
+          · rw [if_pos hgt]
+            simp only [List.mem_append, List.mem_filter, List.mem_singleton, decide_eq_true_eq]
+            constructor
+            · rintro (⟨a, b⟩ | a)
+              · exact Or.inr ⟨a, b⟩
+              · exact Or.inl a
+            · rintro (a | ⟨a, b⟩)
+              · exact Or.inr a
+              · exact Or.inl ⟨a, b⟩
+          · rw [if_neg hgt]
+            simp only [List.mem_map]
+            constructor
+            · rintro ⟨w, hw, rfl⟩
+              split
+              · left; rfl
+              · rename_i hne; exact Or.inr ⟨hw, hne⟩
+            · rintro (rfl | ⟨a, b⟩)
+              · exact ⟨(m.rowid, m.cells), mem_view.mpr ⟨m, hm, rfl⟩, by simp⟩
+              · exact ⟨v, a, by simp [b]⟩
+        · intro e he
+          simp only [List.mem_singleton] at he
+          subst he
+          simp only [emit]
+          exact h.bound m hm
+  · rename_i hf
+    have hnone := find_key_none hf
+    have hlt := h.last
+    have hno : o ∉ st.outs := by
+      intro hin
+      obtain ⟨y, hy, hyo⟩ := mem_outs.mp hin
+      exact hnone y hy (by rw [← hyo]; rfl)
+    refine ⟨?_, ?_, ?_⟩
+    · refine ⟨?_, ?_, ?_, ?_, ?_⟩
+      · simp only [emit]
+        rw [List.pairwise_append]
+        refine ⟨h.keys, by simp, ?_⟩
+        intro a ha b hb
+        simp only [List.mem_singleton] at hb
+        subst hb
+        exact hnone a ha
+      · intro y hy
+        simp only [emit, List.mem_append, List.mem_singleton] at hy
+        rcases hy with hy | rfl
+        · exact h.proper y hy
+        · exact ho
+      · simp only [emit]
+        rw [List.pairwise_append]
+        refine ⟨h.rowids, by simp, ?_⟩
+        intro a ha b hb
+        simp only [List.mem_singleton] at hb
+        subst hb
+        exact Nat.ne_of_lt (h.bound a ha)
+      · intro y hy
+        simp only [emit, List.mem_append, List.mem_singleton] at hy
+        rcases hy with hy | rfl
+        · exact Nat.lt_succ_of_lt (h.bound y hy)
+        · exact Nat.lt_succ_self _
+      · simp only [emit]; omega
+    · intro x
+      simp only [State.outs, emit, List.map_append, List.mem_append, List.mem_map, List.map_cons, List.map_nil, List.mem_singleton]
+      constructor
+      · rintro (⟨y, hy, rfl⟩ | rfl)
+        · exact Or.inr ⟨⟨y, hy, rfl⟩, hnone y hy⟩
+        · left; rfl
+      · rintro (rfl | ⟨hx, _⟩)
+        · right; rfl
+        · exact Or.inl hx
+    · refine ⟨_, ⟨ext_emit _ _ _ _, ?_, ?_, by simp [emit]⟩, fun hin => absurd hin hno⟩
+      · intro v
+        simp only [replay, List.foldl_cons, List.foldl_nil, applyEvent]
+        rw [if_pos hlt]
+        simp only [State.view, emit, List.map_append, List.mem_append, List.mem_filter, List.map_cons, List.map_nil,
+          List.mem_singleton, decide_eq_true_eq, List.mem_map]
+        constructor
+        · rintro (⟨⟨y, hy, rfl⟩, _⟩ | rfl)
+          · exact Or.inl ⟨y, hy, rfl⟩
+          · right; rfl
+        · rintro (⟨y, hy, rfl⟩ | rfl)
+          · exact Or.inl ⟨⟨y, hy, rfl⟩, Nat.ne_of_lt (h.bound y hy)⟩
+          · right; rfl
+      · intro e he
+        simp only [List.mem_singleton] at he
+        subst he
+        simp [emit]
+
+/-! ### folds -/
+
+theorem upsertFold_spec : ∀ (fresh : List Out) {st : State}, StOk st → (∀ o ∈ fresh, Proper o.pks) →
+    (∀ o ∈ fresh, ∀ o' ∈ fresh, o.pks = o'.pks → o = o') →
+    StOk (fresh.foldl upsertOne st) ∧
+    (∀ x, x ∈ (fresh.foldl upsertOne st).outs ↔ x ∈ fresh ∨ (x ∈ st.outs ∧ ∀ o ∈ fresh, x.pks ≠ o.pks)) ∧
+    ∃ ex, Trans st (fresh.foldl upsertOne st) ex := by
+  intro fresh
+  induction fresh with
+  | nil => intro st h _ _; exact ⟨h, by simp, [], Trans.refl st⟩
+  | cons o rest ih =>
+    intro st h hp hf
+    obtain ⟨h1, m1, ex1, t1, _⟩ := upsertOne_spec h (hp o (by simp))
+    obtain ⟨h2, m2, ex2, t2⟩ := ih h1 (fun x hx => hp x (by simp [hx]))
+      (fun a ha b hb => hf a (by simp [ha]) b (by simp [hb]))
+    refine ⟨h2, ?_, ex1 ++ ex2, t1.trans t2⟩
+    intro x
+    simp only [List.foldl_cons]
+    rw [m2 x, m1 x]
+    constructor
+    · rintro (hx | ⟨(rfl | ⟨hx, hne⟩), hall⟩)
+      · exact Or.inl (by simp [hx])
+      · exact Or.inl (by simp)
+      · refine Or.inr ⟨hx, ?_⟩
+        intro o' ho'
+        rcases List.mem_cons.mp ho' with rfl | ho'
+        · exact hne
+        · exact hall o' ho'
+    · rintro (hx | ⟨hx, hall⟩)
+      · rcases List.mem_cons.mp hx with rfl | hx
+        · by_cases hdup : ∃ o' ∈ rest, x.pks = o'.pks
+          · obtain ⟨o', ho', hpk⟩ := hdup
+            have : x = o' := hf x (by simp) o' (by simp [ho']) hpk
+            exact Or.inl (this ▸ ho')
+          · exact Or.inr ⟨Or.inl rfl, fun o' ho' hpk => hdup ⟨o', ho', hpk⟩⟩
+        · exact Or.inl hx
+      · exact Or.inr ⟨Or.inr ⟨hx, hall o (by simp)⟩, fun o' ho' => hall o' (by simp [ho'])⟩
+
+theorem deleteOne_spec {st : State} (h : StOk st) {m : MRow} (hm : m ∈ st.rows) :
+    StOk (deleteOne st m) ∧
+    (∀ y, y ∈ (deleteOne st m).rows ↔ y ∈ st.rows ∧ y ≠ m) ∧
+    Trans st (deleteOne st m) [⟨.delete, m.rowid, m.cells, st.nextId⟩] := by
+  have hrows : ∀ y, y ∈ (deleteOne st m).rows ↔ y ∈ st.rows ∧ y ≠ m := by
+    intro y
+    simp only [deleteOne, emit, List.mem_filter, decide_eq_true_eq]
+    constructor
+    · rintro ⟨hy, hr⟩; exact ⟨hy, fun e => hr (by rw [e])⟩
+    · rintro ⟨hy, hne⟩; exact ⟨hy, fun hr => hne (h.uniqRowid hy hm hr)⟩
+  refine ⟨⟨?_, ?_, ?_, ?_, ?_⟩, hrows, ⟨ext_emit _ _ _ _, ?_, ?_, by simp [deleteOne, emit]⟩⟩
+  · simp only [deleteOne, emit]; exact h.keys.sublist List.filter_sublist
+  · intro y hy; exact h.proper y ((hrows y).mp hy).1
+  · simp only [deleteOne, emit]; exact h.rowids.sublist List.filter_sublist
+  · intro y hy
+    have := h.bound y ((hrows y).mp hy).1
+    simpa [deleteOne, emit] using this
+  · simpa [deleteOne, emit] using h.last
+  · intro v
+    simp only [replay, List.foldl_cons, List.foldl_nil, applyEvent, List.mem_filter, decide_eq_true_eq]
+    rw [mem_view, mem_view]
+    constructor
+    · rintro ⟨⟨y, hy, rfl⟩, hr⟩
+      exact ⟨y, (hrows y).mpr ⟨hy, fun e => hr (by rw [e])⟩, rfl⟩
+    · rintro ⟨y, hy, rfl⟩
+      obtain ⟨hy1, hne⟩ := (hrows y).mp hy
+      exact ⟨⟨y, hy1, rfl⟩, fun hr => hne (h.uniqRowid hy1 hm hr)⟩
+  · intro e he
+    simp only [List.mem_singleton] at he
+    subst he
+    simpa [deleteOne, emit] using h.bound m hm
+
+theorem deleteFold_spec : ∀ (D : List MRow) {st : State}, StOk st → (∀ m ∈ D, m ∈ st.rows) →
+    D.Pairwise (fun a b => a ≠ b) →
+    StOk (D.foldl deleteOne st) ∧
+    (∀ y, y ∈ (D.foldl deleteOne st).rows ↔ y ∈ st.rows ∧ y ∉ D) ∧
+    ∃ ex, Trans st (D.foldl deleteOne st) ex := by
+  intro D
+  induction D with
+  | nil => intro st h _ _; exact ⟨h, by simp, [], Trans.refl st⟩
+  | cons m rest ih =>
+    intro st h hmem hpw
+    obtain ⟨h1, r1, t1⟩ := deleteOne_spec h (hmem m (by simp))
+    rw [List.pairwise_cons] at hpw
+    obtain ⟨h2, r2, ex2, t2⟩ := ih h1
+      (fun y hy => (r1 y).mpr ⟨hmem y (by simp [hy]), fun e => hpw.1 y hy e.symm⟩) hpw.2
+    refine ⟨h2, ?_, _, t1.trans t2⟩
+    intro y
+    simp only [List.foldl_cons]
+    rw [r2 y, r1 y]
+    simp only [List.mem_cons, not_or]
+    constructor
+    · rintro ⟨⟨a, b⟩, c⟩; exact ⟨a, b, c⟩
+    · rintro ⟨a, b, c⟩; exact ⟨⟨a, b⟩, c⟩
+
+/-! ### one table of `handle_candidates` -/
+
+/-- the result row lies in the slice of the candidate keys of FROM position `i` -/
+def sliceOut (i : Nat) (ks : List Key) (o : Out) : Prop := coalKey (o.pks.getD i []) ∈ ks.map coalKey
+
+theorem inSlice_iff (i : Nat) (ks : List Key) (m : MRow) : inSlice i ks m = true ↔ sliceOut i ks m.out := by
+  simp [inSlice, sliceOut, MRow.out]
+
+/-- `pass` with the result of the rewritten statement made a parameter -/
+def passCore (res : List Out) (st : State) (i : Nat) (ks : List Key) : State :=
+  let old := st.rows.filter (inSlice i ks)
+  let fresh := res.filter (fun o => !(old.any (fun m => m.out = o)))
+  let st1 := fresh.foldl upsertOne st
+  let old1 := st1.rows.filter (inSlice i ks)
+  let gone := old1.filter (fun m => !(res.any (fun o => m.out = o)))
+  let goneKeys := gone.map (fun m => ckey m.pks)
+  (st1.rows.filter (fun m => decide (ckey m.pks ∈ goneKeys))).foldl deleteOne st1
+
+theorem pass_eq (q : Query) (db : Db) (st : State) (i : Nat) (ks : List Key) :
+    pass q db st i ks = passCore (evalKeyed (stmtFor q i ks) db) st i ks := rfl
+
+theorem pairwise_ne_of_keys {l : List MRow} (h : l.Pairwise (fun a b => a.pks ≠ b.pks)) :
+    l.Pairwise (fun a b => a ≠ b) :=
+  h.imp (fun {a b} hab e => hab (by rw [e]))
+
+theorem passCore_spec {res : List Out} {st : State} {i : Nat} {ks : List Key} (h : StOk st)
+    (hp : ∀ o ∈ res, Proper o.pks) (hf : ∀ o ∈ res, ∀ o' ∈ res, o.pks = o'.pks → o = o')
+    (hs : ∀ o ∈ res, sliceOut i ks o) :
+    StOk (passCore res st i ks) ∧
+    (∀ x, x ∈ (passCore res st i ks).outs ↔ x ∈ res ∨ (x ∈ st.outs ∧ ¬ sliceOut i ks x)) ∧
+    ∃ ex, Trans st (passCore res st i ks) ex := by
+  -- the upsert half
+  have hfresh : ∀ o, o ∈ res.filter (fun o => !((st.rows.filter (inSlice i ks)).any (fun m => m.out = o))) ↔
+      o ∈ res ∧ o ∉ st.outs := by
+    intro o
+    simp only [List.mem_filter, Bool.not_eq_true', List.any_eq_false, decide_eq_true_eq, mem_outs, not_exists, not_and]
+    constructor
+    · rintro ⟨ho, hn⟩
+      refine ⟨ho, fun m hm hmo => hn m ⟨hm, ?_⟩ hmo⟩
+      rw [inSlice_iff, hmo]; exact hs o ho
+    · rintro ⟨ho, hn⟩
+      exact ⟨ho, fun m hm hmo => hn m hm.1 hmo⟩
+  obtain ⟨h1, m1, ex1, t1⟩ := upsertFold_spec
+    (res.filter (fun o => !((st.rows.filter (inSlice i ks)).any (fun m => m.out = o)))) h
+    (fun o ho => hp o ((hfresh o).mp ho).1)
+    (fun a ha b hb => hf a ((hfresh a).mp ha).1 b ((hfresh b).mp hb).1)
+  -- the delete half
+  generalize hst1 : (res.filter (fun o => !((st.rows.filter (inSlice i ks)).any (fun m => m.out = o)))).foldl upsertOne st = st1 at h1 m1 t1
+  have hD : ∀ m ∈ st1.rows, (ckey m.pks ∈ ((st1.rows.filter (inSlice i ks)).filter (fun m => !(res.any (fun o => m.out = o)))).map (fun m => ckey m.pks) ↔
+      sliceOut i ks m.out ∧ m.out ∉ res) := by
+    intro m hm
+    simp only [List.mem_map, List.mem_filter, Bool.not_eq_true', List.any_eq_false, decide_eq_true_eq]
+    constructor
+    · rintro ⟨g, ⟨⟨hg, hsl⟩, hn⟩, hk⟩
+      have : g = m := h1.uniq hg hm (ckey_inj (h1.proper g hg) (h1.proper m hm) hk)
+      subst this
+      exact ⟨(inSlice_iff i ks g).mp hsl, fun hin => hn _ hin rfl⟩
+    · rintro ⟨hsl, hn⟩
+      exact ⟨m, ⟨⟨hm, (inSlice_iff i ks m).mpr hsl⟩, fun o ho hmo => hn (hmo ▸ ho)⟩, rfl⟩
+  obtain ⟨h2, r2, ex2, t2⟩ := deleteFold_spec
+    (st1.rows.filter (fun m => decide (ckey m.pks ∈ ((st1.rows.filter (inSlice i ks)).filter (fun m => !(res.any (fun o => m.out = o)))).map (fun m => ckey m.pks)))) h1
+    (fun m hm => (List.mem_filter.mp hm).1)
+    ((pairwise_ne_of_keys h1.keys).sublist List.filter_sublist)
+  have heq : passCore res st i ks = (st1.rows.filter (fun m => decide (ckey m.pks ∈ ((st1.rows.filter (inSlice i ks)).filter (fun m => !(res.any (fun o => m.out = o)))).map (fun m => ckey m.pks)))).foldl deleteOne st1 := by
+    simp only [passCore]; rw [hst1]
+  rw [heq]
+  refine ⟨h2, ?_, ex1 ++ ex2, t1.trans t2⟩
+  intro x
+  rw [mem_outs]
+  constructor
+  · rintro ⟨y, hy, rfl⟩
+    obtain ⟨hy1, hnd⟩ := (r2 y).mp hy
+    have hyo : y.out ∈ st1.outs := mem_outs.mpr ⟨y, hy1, rfl⟩
+    have hnot : ¬ (sliceOut i ks y.out ∧ y.out ∉ res) := by
+      intro hc
+      apply hnd
+      simp only [List.mem_filter, decide_eq_true_eq]
+      exact ⟨hy1, (hD y hy1).mpr hc⟩
+    rcases (m1 y.out).mp hyo with hfr | ⟨hin, _⟩
+    · exact Or.inl ((hfresh _).mp hfr).1
+    · by_cases hsl : sliceOut i ks y.out
+      · by_cases hr : y.out ∈ res
+        · exact Or.inl hr
+        · exact absurd ⟨hsl, hr⟩ hnot
+      · exact Or.inr ⟨hin, hsl⟩
+  · intro hx
+    have hx1 : x ∈ st1.outs := by
+      rw [m1 x]
+      rcases hx with hr | ⟨hin, hsl⟩
+      · by_cases hin : x ∈ st.outs
+        · refine Or.inr ⟨hin, fun o ho hpk => ?_⟩
+          obtain ⟨hor, hon⟩ := (hfresh o).mp ho
+          have : x = o := hf x hr o hor hpk
+          exact hon (this ▸ hin)
+        · exact Or.inl ((hfresh x).mpr ⟨hr, hin⟩)
+      · refine Or.inr ⟨hin, fun o ho hpk => hsl ?_⟩
+        have := hs o ((hfresh o).mp ho).1
+        simpa [sliceOut, hpk] using this
+    obtain ⟨y, hy, rfl⟩ := mem_outs.mp hx1
+    refine ⟨y, (r2 y).mpr ⟨hy, ?_⟩, rfl⟩
+    intro hyD
+    simp only [List.mem_filter, decide_eq_true_eq] at hyD
+    obtain ⟨hsl, hn⟩ := (hD y hy).mp hyD.2
+    rcases hx with hr | ⟨_, hns⟩
+    · exact hn hr
+    · exact hns hsl
+
+theorem passCore_noop {res : List Out} {st : State} {i : Nat} {ks : List Key}
+    (hres : ∀ x, x ∈ res ↔ x ∈ st.outs ∧ sliceOut i ks x) : passCore res st i ks = st := by
+  have hfresh : res.filter (fun o => !((st.rows.filter (inSlice i ks)).any (fun m => m.out = o))) = [] := by
+    rw [List.filter_eq_nil_iff]
+    intro o ho
+    obtain ⟨hin, hsl⟩ := (hres o).mp ho
+    obtain ⟨m, hm, rfl⟩ := mem_outs.mp hin
+    simp only [Bool.not_eq_true', Bool.not_eq_false, List.any_eq_true, List.mem_filter, decide_eq_true_eq]
+    exact ⟨m, ⟨hm, (inSlice_iff i ks m).mpr hsl⟩, rfl⟩
+  simp only [passCore, hfresh, List.foldl_nil]
+  have hgone : (st.rows.filter (inSlice i ks)).filter (fun m => !(res.any (fun o => m.out = o))) = [] := by
+    rw [List.filter_eq_nil_iff]
+    intro m hm
+    obtain ⟨hm1, hsl⟩ := List.mem_filter.mp hm
+    simp only [Bool.not_eq_true', Bool.not_eq_false, List.any_eq_true, decide_eq_true_eq]
+    exact ⟨m.out, (hres _).mpr ⟨mem_outs.mpr ⟨m, hm1, rfl⟩, (inSlice_iff i ks m).mp hsl⟩, rfl⟩
+  rw [hgone]
+  have hnil : st.rows.filter (fun _ => false) = [] := by
+    rw [List.filter_eq_nil_iff]; intro _ _; simp
+  simp [hnil]
 
 end Corro.Ivm
